@@ -164,6 +164,10 @@ def symmetrise(ubi, name):
 def check(case, rec=None):
     from ImageD11 import cImageD11, indexing
     ubi, gv, labels = build(case)
+    # label conventions in use: 0..n (grain numbers), -1 = unindexed (score_and_assign), -2 = never assigned
+    # (refinegrains): the selection is by equality whatever the sign
+    loff = [0, 0, -1, -2][case["seed"] % 4] if "seed" in case else 0
+    labels = (labels + loff).astype(np.int32)
     n = len(gv)
     tol = case["tol"]
     snap = snapshot(gv=gv, labels=labels)
@@ -284,6 +288,32 @@ def check(case, rec=None):
                     fails.append(exc_failure("indexer.refine", ur))
         else:
             fails.append(exc_failure("indexer()", ix))
+        # the same count on an indexer that has assigned its peaks to the rings of the cell with a narrow ds_tol (strained
+        # / noisy peaks fall between rings): score counts every peak within hkl_tol, on a ring or not
+        if case["degenerate"] == "no" and case["hmax"] <= 8 and n >= 1 and not case["left"] and case["noise"] <= 0.1:
+            from ImageD11 import unitcell as ucm
+            import io, contextlib
+
+            def ringed():
+                uc_ = ucm.unitcell(case["cell"], "P")
+                ix2 = indexing.indexer(unitcell=uc_, gv=gv.copy(), hkl_tol=tol, wavelength=0.3,
+                                       ds_tol=0.02 * case["noise"] / max(case["cell"][:3]) + 1e-9)
+                with contextlib.redirect_stdout(io.StringIO()):
+                    ix2.assigntorings()
+                return ix2
+            ok, ix2 = guard(ringed)
+            if not ok:
+                fails.append(exc_failure("indexer.assigntorings", ix2))
+            else:
+                ok, sc = guard(ix2.score, ubi)
+                if not ok:
+                    fails.append(exc_failure("indexer.score", sc))
+                elif sc != nin:
+                    fails.append(fail("count", "indexer.score after assigntorings (%d of %d peaks on a ring) = %s, "
+                                      "reference %d; %s" % (int((np.asarray(ix2.ra) >= 0).sum()), n, sc, nin, where),
+                                      fn="indexer.score"))
+                elif rec is not None and 0 < int((np.asarray(ix2.ra) >= 0).sum()) < n:
+                    rec.note("indexer_score_cases_with_peaks_off_the_rings", 1, "sum")
         if nin > 0 and singular is False:
             from ImageD11 import refinegrains
             import io, contextlib
@@ -357,7 +387,7 @@ def check(case, rec=None):
         fails.append(fail("inputs", "one of the scoring / refinement routes modified the %s array it was given; %s" %
                           (nm, where), what="inputs"))
     # ---- refine_assigned for every label (selection by label only)
-    for lab in range(0, case["nlabel"] + 2):
+    for lab in range(loff, case["nlabel"] + 2 + loff):
         sel = labels == lab
         u4 = ubi.copy()
         ok, r = guard(cImageD11.refine_assigned, u4, gv, labels, lab)
